@@ -267,17 +267,18 @@ def run_case(job):
                     res['violations'].append({'inputs': spec.enc(inp_c), 'replay': rr})
                 else:
                     res['known'].append({'finding': k['id'], 'inputs': spec.enc(inp_c), 'replay': rr})
-        elif r.status in ('unmodelled', 'unwind'):
+        elif r.status in ('unmodelled', 'unwind', 'deadline'):
             entry = {'why': '%s: %s' % (r.status, r.detail), 'decisions': len(r.decisions)}
             res['undecided'].append(entry)
     # safety net / termination: replay one model of every undecided path (needs the path's inputs: re-run prefix)
-    und_paths = [r for r in results if r.status in ('unmodelled', 'unwind')][:40]
+    und_paths = [r for r in results if r.status in ('unmodelled', 'unwind', 'deadline')][:40]
     for r in und_paths:
         wit = _witness_of_path(h, env, eng, r, params)
         if wit is None:
             continue
         rr = replay(wit)
         st = rr.get('status')
+        res.setdefault('undecided_replays', []).append({'path': r.status, 'inputs': spec.enc(wit), 'replay': rr})
         if st in ('violated', 'raised') or (st == 'hang' and h.termination):
             inside = None
             for k in my_kfs:
@@ -317,14 +318,8 @@ def _witness_of_path(h, env, eng, r, params):
     e2 = E.Engine(max_decisions=len(r.decisions) + 1, max_ticks=eng.max_ticks, solver_timeout_ms=20000, max_paths=1)
     E.CURRENT = None
     # replay exactly this path
-    e2.decisions = list(r.decisions)
-    e2.pos = 0
-    e2.solver = z3.Solver()
+    e2.reset_path(r.decisions)
     e2.solver.set('timeout', 20000)
-    e2.pending = []
-    e2.ticks = 0
-    e2.nfresh = 0
-    e2.uf_cache = {}
     E.CURRENT = e2
     try:
         try:
@@ -334,10 +329,10 @@ def _witness_of_path(h, env, eng, r, params):
         if 'inp' not in box:
             return None
         try:
-            if e2.solver.check() != z3.sat:
+            if not e2.check():          # with the solver portfolio as fallback
                 return None
-            return spec.concretize(box['inp'], e2.solver.model())
-        except Exception:
+            return spec.concretize(box['inp'], e2.get_model())
+        except (Exception, Unmodelled):
             return None
     finally:
         E.CURRENT = None
@@ -377,6 +372,7 @@ def run_property(pid, tier='quick', seed=0, jobs=None, only=None, verbose=False)
     kfs = [k for k in load_known_findings() if k.get('property') == pid]
     tv = translator_validation(scratch)
     tv_ok = all(v['exit'] == 0 for v in tv.values())
+    loader.install(scratch, with_ply=False)      # harnesses may read the live registry to build their cases
     jobs_list = []
     for h in hs:
         for p in h.cases(tier):
